@@ -9,6 +9,7 @@ import (
 	"time"
 
 	ipfslog "berty.tech/go-ipfs-log"
+	"berty.tech/go-ipfs-log/entry"
 	orbitdb "berty.tech/go-orbit-db"
 	cid "github.com/ipfs/go-cid"
 	"verif/harness/sim"
@@ -24,6 +25,7 @@ type ReplInput struct {
 	ReqHeads   map[string][]int `json:"req_heads"`
 	NReq       int              `json:"nreq"`
 	Bad        []int            `json:"bad"`
+	Abort      []int            `json:"abort"` // heads announced with a hash that does not match their contents
 	Links      map[string][]int `json:"links"`
 	Behaviours []Behaviour      `json:"behaviours"`
 	Mutant     []string         `json:"mutant"` // ids of behaviours of the Pinned specification
@@ -144,7 +146,7 @@ func (r *rpRun) setup(tag string) error {
 		r.rec(2, e2)
 		r.rec(3, e3)
 		r.rec(4, e4)
-	case "B":
+	case "B", "C":
 		e1, err := put(rb, "k1")
 		if err != nil {
 			return err
@@ -193,12 +195,29 @@ func (r *rpRun) setup(tag string) error {
 		r.rec(3, e3)
 		r.rec(4, e4)
 		r.rec(5, e5)
+		if r.in.Dag == "C" {
+			// head 6: a well-formed entry of the authorised writer b announced under a hash that is not the hash of its contents
+			lb6, err := foreignLog(r.nodes["b"], addr)
+			if err != nil {
+				return err
+			}
+			e6, err := lb6.Append(ctx, kvOp("k6"), nil)
+			if err != nil {
+				return err
+			}
+			t := copyEntry(e6).(*entry.Entry)
+			t.Payload = kvOp("k6-tampered")
+			r.entries[6] = t
+		}
 	}
 	if err := sim.Settle(settleTimeout, r.nodes["a"], r.nodes["b"]); err != nil {
 		return err
 	}
 	// check that the real DAG is the one the specification was given
 	for id, e := range r.entries {
+		if contains(r.in.Abort, id) {
+			continue
+		}
 		got := []int{}
 		seen := map[int]bool{}
 		for _, c := range append(append([]cid.Cid{}, e.GetNext()...), e.GetRefs()...) {
@@ -222,6 +241,15 @@ func (r *rpRun) setup(tag string) error {
 func mustRaw(p *sim.Peer, c cid.Cid) []byte {
 	b, _ := p.RawBlock(c)
 	return b
+}
+
+func (r *rpRun) hasAbort(q int) bool {
+	for _, id := range r.in.ReqHeads[fmt.Sprint(q)] {
+		if contains(r.in.Abort, id) {
+			return true
+		}
+	}
+	return false
 }
 
 func (r *rpRun) teardown() {
@@ -319,7 +347,7 @@ func (r *rpRun) apply(st Step, prev map[string]interface{}) error {
 		}
 		before := r.countSlotParked(q)
 		spawnsBefore := h.Count("sync.spawn", r.a.S)
-		if err := r.a.S.Sync(ctx, heads); err != nil {
+		if err := r.a.S.Sync(ctx, heads); err != nil && !r.hasAbort(q) {
 			return fmt.Errorf("sync: %w", err)
 		}
 		nnew := len(specWorkers(st.State)) - len(specWorkers(prev))
@@ -582,6 +610,46 @@ func (r *rpRun) run(b Behaviour, idx int) {
 	}
 	if len(r.res.Samples) < 3 {
 		r.res.Samples = append(r.res.Samples, map[string]interface{}{"behaviour": b.ID, "actions": briefSteps(b.Steps), "final_log": got})
+	}
+	// stop the replica and start it again from its directory: the valid entries are still there, the refused ones still absent
+	pa := r.nodes["a"].P
+	addr := r.a.Addr
+	if err := r.nodes["a"].Close(); err != nil {
+		r.res.Inconclusive = append(r.res.Inconclusive, b.ID+": close: "+err.Error())
+		return
+	}
+	na, err := pa.Start("")
+	if err != nil {
+		r.res.Inconclusive = append(r.res.Inconclusive, b.ID+": restart: "+err.Error())
+		return
+	}
+	r.nodes["a"] = na
+	ref, err := na.Open(addr, "keyvalue", nil)
+	if err != nil {
+		r.res.Inconclusive = append(r.res.Inconclusive, b.ID+": reopen: "+err.Error())
+		return
+	}
+	r.a = ref
+	if err := ref.S.Load(ctx, -1); err != nil {
+		r.res.Inconclusive = append(r.res.Inconclusive, b.ID+": load: "+err.Error())
+		return
+	}
+	if !rest("after the restart") {
+		return
+	}
+	r.res.Comparisons++
+	r.res.Stats["restarts"]++
+	got2 := r.logIDs()
+	for _, id := range got {
+		if !contains(got2, id) && !contains(r.in.Bad, id) {
+			r.violate("missing", fmt.Sprintf("entry %d was in the log before the replica was stopped and is not after it was started and loaded", id), got, got2)
+			break
+		}
+	}
+	for _, id := range r.in.Bad {
+		if contains(got2, id) {
+			r.violate("bad-merged", fmt.Sprintf("refused entry %d is in the log after the replica was restarted and loaded", id), nil, got2)
+		}
 	}
 }
 
